@@ -35,7 +35,9 @@ fn c16_shared(raw: &Raw) -> Scenario {
         for r in ops {
             // thread t mostly feeds store t%2; two values only, so equal neighbours are frequent
             let s = stores[(t + (r.k as usize >> 3) % 4 / 3) % 2];
-            let a = b.action(s, ((r.a >> 3) % 2) as u8);
+            // two values per store, disjoint between the stores: equal neighbours are frequent,
+            // and a notification of one store can never be explained by a delivery of the other
+            let a = b.action(s, ((r.a >> 3) % 2) as u8 + 2 * s as u8);
             b.s.threads[th].push(Op::Dispatch { act: a, via: via_of(r) });
         }
     }
@@ -127,6 +129,9 @@ pub fn c16_check(scn: &Scenario, h: &History) -> Outcome {
             if *v != scn.actions[*a as usize].sel as u64 {
                 out.viol(format!("selector subscription object {} delivered value {} with action {}, whose state selects {}", sp.id, v, a, scn.actions[*a as usize].sel));
             }
+        }
+        for m in shared_selector_check(&d, sp.id) {
+            out.viol(m);
         }
         out.class("shared-between-two-stores");
         let vals: Vec<u64> = scn.actions.iter().map(|a| a.sel as u64).collect();
@@ -255,7 +260,7 @@ pub static C16: Profile = Profile {
 
 // =============================================================================== C17
 
-/// The 18-symbol option alphabet. Component ids are allocated per occurrence.
+/// The 19-symbol option alphabet. Component ids are allocated per occurrence.
 #[derive(Clone, Copy, Debug, PartialEq)]
 enum Sym {
     NameA,
@@ -276,10 +281,13 @@ enum Sym {
     WithMws2,
     WithMws0,
     AddMw,
+    /// add_middleware with the *same instance* that was configured last (a fresh one if none):
+    /// "add_* appends" also when the object is already in the list
+    AddMwSame,
 }
-const SYMS: [Sym; 18] = [
+const SYMS: [Sym; 19] = [
     Sym::NameA, Sym::NameB, Sym::NameEmpty, Sym::WithReducer, Sym::WithReducers2, Sym::WithReducers0, Sym::AddReducer, Sym::WithoutReducer,
-    Sym::Cap0, Sym::Cap1, Sym::Cap3, Sym::PolBlock, Sym::PolOldest, Sym::PolLatest, Sym::WithMw, Sym::WithMws2, Sym::WithMws0, Sym::AddMw,
+    Sym::Cap0, Sym::Cap1, Sym::Cap3, Sym::PolBlock, Sym::PolOldest, Sym::PolLatest, Sym::WithMw, Sym::WithMws2, Sym::WithMws0, Sym::AddMw, Sym::AddMwSame,
 ];
 
 /// record-of-last-settings model
@@ -383,6 +391,14 @@ fn c17_scenario(with_ctor_reducer: bool, seq: &[Sym]) -> Scenario {
                 m.mws.push(c);
                 calls.push(BCall::AddMiddleware(c));
             }
+            Sym::AddMwSame => {
+                let c = match m.mws.last() {
+                    Some(c) => *c,
+                    None => fresh(&mut b),
+                };
+                m.mws.push(c);
+                calls.push(BCall::AddMiddleware(c));
+            }
         }
     }
     // the StoreSpec records the *expected* configuration; the store itself is built from `calls`
@@ -431,8 +447,8 @@ fn c17_scenario(with_ctor_reducer: bool, seq: &[Sym]) -> Scenario {
 fn seq_of(mut code: usize, len: usize) -> Vec<Sym> {
     let mut v = vec![];
     for _ in 0..len {
-        v.push(SYMS[code % 18]);
-        code /= 18;
+        v.push(SYMS[code % SYMS.len()]);
+        code /= SYMS.len();
     }
     v
 }
@@ -444,7 +460,7 @@ pub fn c17_enumerate(tier: Tier, sched: bool) -> EnumSpec {
     let mut k = 0usize;
     for ctor in [false, true] {
         for len in 0..=max_len {
-            for code in 0..18usize.pow(len as u32) {
+            for code in 0..SYMS.len().pow(len as u32) {
                 // schedule-controlled flavour: a 10 % sample (all sequences of length <= 2)
                 if !sched || len <= 2 || k % 10 == 0 {
                     items.push((ctor, len, code));
@@ -463,9 +479,9 @@ fn c17_raw(_tier: Tier) -> proptest::strategy::BoxedStrategy<Raw> {
 /// random longer sequences (length 5..=9) on top of the exhaustive short ones
 pub fn c17_build(raw: &Raw, _tier: Tier, _sched: bool) -> Scenario {
     let ops = raw.threads.first().cloned().unwrap_or_default();
-    let mut seq: Vec<Sym> = ops.iter().map(|r| SYMS[pick(r.k, 18)]).collect();
+    let mut seq: Vec<Sym> = ops.iter().map(|r| SYMS[pick(r.k, SYMS.len())]).collect();
     while seq.len() < 5 {
-        seq.push(SYMS[pick(knob(raw, seq.len()), 18)]);
+        seq.push(SYMS[pick(knob(raw, seq.len()), SYMS.len())]);
     }
     c17_scenario(knob(raw, 15) % 2 == 1, &seq)
 }
@@ -635,7 +651,7 @@ pub fn c17_check(scn: &Scenario, h: &History) -> Outcome {
 
 pub static C17: Profile = Profile {
     id: "C17",
-    rule: "enumeration: every builder call sequence of length 0..=3 (quick) / 0..=4 (thorough) over the 18-symbol option alphabet {with_name(a|b|\"\"), with_reducer, with_reducers([r,r']|[]), add_reducer, without_reducer, with_capacity(0|1|3), with_policy x3, with_middleware, with_middlewares([m,m']|[]), add_middleware} on both constructors (2 x 6175 / 2 x 111151), plus proptest sequences of length 5-9. Oracle O-BUILD: record-of-last-settings model for Ok/InitError; the built store is probed: callback order of one action (reducer chain, middleware order), pool thread name, and - with the pipeline held at a primer - exact capacity and policy (burst survivors, dropped metric, Ok/Err per call; under BlockOnFull `capacity` dispatches must fit and the next must wait: deadlock = violation under the schedule-controlled driver). Non-trivial = the sequence sets >= 2 different options or one option twice; distinct = distinct sequences.",
+    rule: "enumeration: every builder call sequence of length 0..=3 (quick) / 0..=4 (thorough) over the 19-symbol option alphabet {with_name(a|b|\"\"), with_reducer, with_reducers([r,r']|[]), add_reducer, without_reducer, with_capacity(0|1|3), with_policy x3, with_middleware, with_middlewares([m,m']|[]), add_middleware(new instance), add_middleware(the instance configured last)} on both constructors (2 x 7240 / 2 x 137561), plus proptest sequences of length 5-9. Oracle O-BUILD: record-of-last-settings model for Ok/InitError; the built store is probed: callback order of one action (reducer chain, middleware order), pool thread name, and - with the pipeline held at a primer - exact capacity and policy (burst survivors, dropped metric, Ok/Err per call; under BlockOnFull `capacity` dispatches must fit and the next must wait: deadlock = violation under the schedule-controlled driver). Non-trivial = the sequence sets >= 2 different options or one option twice; distinct = distinct sequences.",
     raw: c17_raw,
     build: c17_build,
     check: c17_check,
